@@ -8,6 +8,7 @@ Model: `RedunModel.Model.Script` (`prepare` = `prepare_command`, `commandEof` = 
 finally runs).
 -/
 import RedunModel.Lemmas.Script
+import RedunModel.Lemmas.ScriptExec
 namespace RedunModel.C29
 open RedunModel.Script
 
@@ -190,5 +191,51 @@ example : ∃ r, scriptCall "cat in.local > out.local".toList
     none = .ok r ∧ r.parts.length = 3 ∧ r.parts.head? = some "cp in.remote in.local".toList ∧
       r.parts.getLast? = some "cp out.local out.remote".toList := by
   refine ⟨_, rfl, ?_, ?_, ?_⟩ <;> decide
+
+/-! ## what `script_task` finally executes -/
+
+/-- `script_task` does not run `full_command` as is: `get_task_command` applies `prepare_command`
+(dedent, strip, default shell) to it once more.  That second pass leaves the user's command inside
+the here-document untouched: the temp file written by the script that is really executed still holds
+exactly `prepare_command(cmd) + "\n"` — for every command text and every nested input/output
+structure whose staging paths (and temp dir) contain no newline. -/
+theorem second_prepare_keeps_command (cmd : Str) (ins outs : NV Leaf) (t : Option Str) (r : ScriptCall)
+    (h : scriptCall cmd ins outs t = .ok r)
+    (hin : ∀ l ∈ iterNV ins, leafOk l) (hout : ∀ l ∈ iterNV outs, leafOk l) (ht : ∀ d, t = some d → '\n' ∉ d) :
+    tempFileOf (executedScript r.full) = some (prepare cmd ++ ['\n']) := by
+  obtain ⟨stages, w, hs, hw, hp, hf, _, _⟩ := scriptCall_ok h
+  obtain ⟨k, hk, hn, _⟩ := commandEof_spec (prepare cmd) "EOF".toList
+  have hw' : w = wrapWith (prepare cmd) (eofCand "EOF".toList k) := by
+    unfold wrap at hw
+    rw [hk] at hw
+    exact (Option.some.inj hw).symm
+  have h2 := mapExcept_ok renderStage _ _ hs
+  unfold executedScript
+  rw [hf, hp, hw', show cdPart t ++ stages ++ [wrapWith (prepare cmd) (eofCand "EOF".toList k)] ++
+      List.filterMap renderUnstage (iterNV (mapNV preprocessOutput outs)) =
+      (cdPart t ++ stages) ++ wrapWith (prepare cmd) (eofCand "EOF".toList k) ::
+        List.filterMap renderUnstage (iterNV (mapNV preprocessOutput outs)) by simp]
+  apply keep _ _ _ _ (prepare_lines cmd) hn (eofCand_EOF_props k).1 (eofCand_EOF_props k).2
+  · intro p hp'
+    rcases List.mem_append.1 hp' with e | e
+    · exact cdPart_harmless t ht p e
+    · obtain ⟨l, hl, hr⟩ := all2_mem_right h2 p e
+      exact renderStage_harmless l (hin l hl) p hr
+  · intro p hp'
+    obtain ⟨l', hl', hr⟩ := List.mem_filterMap.1 hp'
+    rw [iterNV_mapNV] at hl'
+    obtain ⟨l, hl, rfl⟩ := List.mem_map.1 hl'
+    exact renderUnstage_harmless l (hout l hl) p hr
+
+set_option maxRecDepth 100000 in
+/-- non-vacuity: the concrete script that is executed for one staged input and one staged output -/
+example : ∃ r, scriptCall "  cat in.local > out.local\n  EOF\n".toList
+    (.node .list [.leaf (.staging .plain false ⟨.plain, false, "in.local".toList⟩ ⟨.plain, false, "in.remote".toList⟩)])
+    (.leaf (.staging .plain false ⟨.plain, false, "out.local".toList⟩ ⟨.plain, false, "out.remote".toList⟩))
+    none = .ok r ∧
+    tempFileOf (executedScript r.full) =
+      some "#!/usr/bin/env bash\nset -exo pipefail\ncat in.local > out.local\nEOF\n".toList := by
+  refine ⟨_, rfl, ?_⟩
+  rfl
 
 end RedunModel.C29
